@@ -105,7 +105,11 @@ def afloat(x: float) -> dict:
     if h == "inf":
         return {"f64": [sign, 2047, [0] * 52]}
     if h == "nan":
-        return {"f64": [sign, 2047, [0] * 51 + [1]]}
+        # float.hex() drops the NaN payload; only for NaNs (outside the canonical domain,
+        # reached by C05/C10) the bit pattern is taken from struct.
+        import struct
+        q = int.from_bytes(struct.pack(">d", x), "big")
+        return {"f64": [q >> 63, 2047, [(q >> i) & 1 for i in range(52)]]}
     assert h.startswith("0x"), h
     mant_s, exp_s = h[2:].split("p")
     lead, _, frac = mant_s.partition(".")
@@ -123,7 +127,10 @@ def unafloat(a: dict) -> float:
     mant = sum(b << i for i, b in enumerate(mbits))
     s = "-" if sign else ""
     if e == 2047:
-        return float(s + ("inf" if mant == 0 else "nan"))
+        if mant == 0:
+            return float(s + "inf")
+        import struct
+        return struct.unpack(">d", ((sign << 63) | (2047 << 52) | mant).to_bytes(8, "big"))[0]
     if e == 0:
         return float.fromhex(f"{s}0x0.{mant:013x}p-1022")
     return float.fromhex(f"{s}0x1.{mant:013x}p{e - 1023:+d}")
